@@ -16,7 +16,7 @@ RULE = ("wallets from random secrets through all constructors x both networks x 
         "intervals {(0,0),(0,1),(7,8),(s,s+r),(2^31-3,2^31-1),(2^31-1,2^31)} inside [0,2^31), 0..40 rows; everything recomputed "
         "from the seed by the reference model; distinct = distinct (monitor, case) digests; a wallet is non-trivial when it "
         "has >=1 row or a non-zero account"
-        " EXTENSIONS: + listings of 255..1025 and 4097 rows (thorough 16385) with real keys, one listing of 2^15+600 rows in fast mode (thorough 2^17+600), results re-read after later requests and after the caller edited them, export_wallet / export_wasabi onto one path repeatedly, accounts equal to meaningful numbers, wallet listings of K+3 rows (thorough K-1 .. 2K+1) per harvested threshold K and purpose with rows around multiples of K decoded")
+        " EXTENSIONS: + listings of 255..1025 and 4097 rows (thorough 16385) with real keys, one listing of 2^15+600 rows in fast mode (thorough 2^17+600), results re-read after later requests and after the caller edited them, export_wallet / export_wasabi onto one path repeatedly, accounts equal to meaningful numbers, wallet listings of K+3 rows (thorough K-1 .. 2K+1) per harvested threshold K and purpose with rows around multiples of K decoded, capitalised spellings of the mnemonic, a command-line route compared with the reference wallet of the text as typed")
 LEVEL_TEXT = ("The dict returned by PaperWallet.generate(account, interval), the json() string and wasabi_json() of real "
               "wallets are checked by an offline checker against the reference model recomputed from the seed: account paths "
               "and SLIP-132 keys per purpose, one row per index in order, WIF/SEC/address of each row independently decoded, "
@@ -34,7 +34,7 @@ def build_wallet(case):
     p = case.get("passphrase", "")
     if route in ("from_mnemonic", "from_entropy_hex"):
         ent = case["entropy"]
-        mn = rb39.mnemonic(ent)
+        mn = respell(rb39.mnemonic(ent), case.get("spelling")) if route == "from_mnemonic" else rb39.mnemonic(ent)
         seed = rb39.seed(mn, p)
         m = rb32.master(seed)
         if route == "from_mnemonic":
@@ -51,6 +51,56 @@ def build_wallet(case):
     else:
         w = PaperWallet.from_extended_key(extended_key=m.xprv(rb32.version_for("prv", tn, case.get("purpose", 44))))
     return w, m, None, None, tn
+
+
+def respell(mn, how):
+    """BIP39 takes the sentence AS TYPED (NFKD only): capitals are part of it."""
+    if how == "upper":
+        return mn.upper()
+    if how == "capitalised":
+        return " ".join(w_.capitalize() for w_ in mn.split(" "))
+    if how == "one-upper":
+        ws = mn.split(" ")
+        ws[len(ws) // 2] = ws[len(ws) // 2].upper()
+        return " ".join(ws)
+    return mn
+
+
+def judge_cli_wallet(ctx, case):
+    """The same records through the command line (python -m btc_hd_wallet, in-process): what it prints for a mnemonic /
+    entropy / passphrase as typed is the wallet of exactly that text."""
+    import shutil
+    import tempfile
+    from .c20 import run_inproc
+    tn, p = case["testnet"], case.get("passphrase", "")
+    acct, s, e = case["account"] % H, case["start"], case["end"]
+    ent = case["entropy"]
+    if case["route"] == "from_mnemonic":
+        mn = respell(rb39.mnemonic(ent), case.get("spelling"))
+        argv = ["from-mnemonic", mn]
+    else:
+        mn = rb39.mnemonic(ent)
+        argv = ["from-entropy-hex", ent.hex().upper() if case.get("spelling") == "upper" else ent.hex()]
+    argv = ["--account", str(acct), "--interval", str(s), str(e)] + (["--testnet"] if tn else []) + argv + (["--password", p] if p else [])
+    m = rb32.master(rb39.seed(mn, p))
+    d = tempfile.mkdtemp(prefix="vp-c06cli-")
+    try:
+        res = run_inproc(argv, d, {})
+    finally:
+        shutil.rmtree(d, ignore_errors=True)
+    cls = "cli|%s|%s|%s" % (case["route"], case.get("spelling") or "plain", "test" if tn else "main")
+    if res["rc"] != 0:
+        # (refusing a spelling is the command line's business; C20 judges refusals)
+        ctx.extra["cli_refusals_not_judged"] = ctx.extra.get("cli_refusals_not_judged", 0) + 1
+        return None
+    try:
+        got = json.loads(res["stdout"])
+    except ValueError as ex:
+        return ctx.judge("generate", False, dict(case, argv=argv), "JSON", str(ex), cls=cls, mech="C06.cli.notjson")
+    exp = json.loads(json.dumps(rpaper.generate(m, tn, acct, s, e, mn, p, with_bip85=False)))
+    dd = rpaper.diff(exp, {k: v for k, v in got.items() if k != "BIP85"})
+    return ctx.judge("generate", not dd, dict(case, argv=argv), None, dd[:3], cls=cls,
+                     mech="C06.generate." + (dd[0][0].strip("/").replace("/", ".").rstrip("0123456789.") if dd else ""))
 
 
 def check_rows(master, testnet, data, account, start, end):
@@ -408,7 +458,8 @@ def gen_case(rnd, j):
     case = {"route": route, "testnet": bool((j // 5) & 1)}
     if route in ("from_mnemonic", "from_entropy_hex"):
         case["entropy"] = gen.rbytes(rnd, rnd.choice([16, 20, 24, 28, 32]))
-        case["passphrase"] = rnd.choice(["", "", "correct horse battery staple", "pässwörd ✓"])
+        case["passphrase"] = rnd.choice(["", "", "correct horse battery staple", "pässwörd ✓", "UPPER lower MiXeD"])
+        case["spelling"] = rnd.choice([None, None, "upper", "capitalised", "one-upper"])
     else:
         case["seed"] = gen.rbytes(rnd, rnd.choice([16, 32, 64, 64]))
         case["purpose"] = rnd.choice([44, 49, 84])
@@ -444,6 +495,11 @@ def run(ctx):
     total = ctx.scale(160, 5000)
     for j in range(total):
         judge_wallet(ctx, gen_case(rnd, j + ctx.shard * 7))
+    for j in range(ctx.scale(64, 3000)):
+        case = gen_case(rnd, (j % 2) + 5 * (j // 2 + ctx.shard))          # (routes from_mnemonic / from_entropy_hex)
+        if case["end"] - case["start"] > 4:
+            case["end"] = case["start"] + 2
+        judge_cli_wallet(ctx, case)
     for j in range(ctx.scale(96, 4000)):
         judge_sequence(ctx, gen_sequence(rnd, j + ctx.shard * 3))
     for j in range(ctx.scale(24, 1200)):
@@ -497,6 +553,9 @@ def run(ctx):
 
 
 def replay(ctx, monitor, case):
+    if monitor == "generate" and "argv" in case:
+        case.pop("argv")
+        return judge_cli_wallet(ctx, case)
     if monitor == "export_files":
         case["exports"] = [tuple(x) for x in case["exports"]]
         return judge_export_files(ctx, case)
